@@ -213,6 +213,10 @@ class VStructuralTranslatorL4(
     # If `c_array_type` is not None we need to impelement an array of
     # components, each with their own connections for the ports.
 
+    # A single sub-component is instantiated under its own name
+    if not c_array_type['n_dim']:
+      s.check_decl( c_id, f"Note: {c_id} is a sub-component of {m}" )
+
     # Generate wire declarations for all ports
     defs = []
 
